@@ -8,6 +8,8 @@ import (
 	"fmt"
 	"strings"
 
+	"github.com/crewjam/saml"
+
 	. "verifharness/internal/core"
 )
 
@@ -581,6 +583,7 @@ func runC01(c *Ctx) {
 		}
 	}
 	randomCombinations(c, g, 200, false)
+	c01LongLived(c, g)
 	// documents the parser or the round-trip validator must refuse outright
 	gb := c.Group("c01raw", spImports, caseType, "check_c01")
 	{ // a genuinely signed response made unacceptable to the round-trip validator only (empty CDATA section)
@@ -623,5 +626,54 @@ func reprefix(n *Node, from, to string) {
 	}
 	for _, k := range n.Kids {
 		reprefix(k, from, to)
+	}
+}
+
+// One long-lived ServiceProvider whose trust configuration is edited in place between calls (IdP key
+// rotation, metadata refresh): every call must decide by the configuration as it is at that call.
+func c01LongLived(c *Ctx, g *Group) {
+	now := baseNow
+	n := 0
+	for _, lay := range []layout{{signResp: true}, {signAssert: true}, {signAssert: true, enc: true}} {
+		cfg := defaultCfg()
+		cfg.Kds = []KD{{"signing", []int{0}}}
+		spObj := cfg.SP()
+		step := func(signer int, what string) {
+			n++
+			x := buildLayout(cfg, now, lay, fmt.Sprintf("ll%d", n), signer)
+			c.Count("attack/long-lived-" + what)
+			addRun(c, g, &Run{Cfg: cfg, IDs: []string{"req-1"}, Now: now, Cur: cfg.AcsURL, Doc: x.root, SPObj: spObj},
+				map[string]string{"attack": "long-lived-sp", "step": what, "layout": lay.String(), "signer": fmt.Sprint(signer)}, false)
+		}
+		setKeys := func(certs ...int) {
+			cfg.Kds = []KD{{"signing", certs}}
+			kd := &spObj.IDPMetadata.IDPSSODescriptors[0].KeyDescriptors[0]
+			kd.KeyInfo.X509Data.X509Certificates = nil
+			for _, x := range certs {
+				kd.KeyInfo.X509Data.X509Certificates = append(kd.KeyInfo.X509Data.X509Certificates, saml.X509Certificate{Data: certB64(x)})
+			}
+		}
+		step(0, "initial-key-accepted")
+		step(1, "other-key-rejected")
+		setKeys(1) // rotation: key 0 withdrawn, key 1 published, same metadata object
+		step(0, "withdrawn-key")
+		step(1, "new-key")
+		setKeys(0, 1)
+		step(0, "both-keys")
+		step(1, "both-keys")
+		// a refreshed metadata object
+		fresh := *spObj.IDPMetadata
+		fresh.IDPSSODescriptors = []saml.IDPSSODescriptor{{}}
+		fresh.IDPSSODescriptors[0].KeyDescriptors = []saml.KeyDescriptor{{Use: "signing"}}
+		spObj.IDPMetadata = &fresh
+		setKeys(0)
+		step(1, "after-refresh-withdrawn-key")
+		step(0, "after-refresh-key")
+		// switching to a pinned certificate on the same object
+		pinned := certB64(1)
+		spObj.IDPCertificate = &pinned
+		cfg.Trust, cfg.C = tPinned, 1
+		step(0, "pinned-other")
+		step(1, "pinned")
 	}
 }
